@@ -227,6 +227,15 @@ func FromSecureSourceOnly(b []byte) bool { return true }
 // Stub: under the engine, calls of the named function return zero values.
 func Stub(name string) {}
 
+// Sig: "the holder of the key whose compressed encoding is pubkey signs data".
+// Under the engine the result is 64 fresh bytes registered as that signature
+// (perfect-cryptography model); natively sign() computes the real signature.
+// schnorr selects the Schnorr scheme (data is then the 32-byte message).
+func Sig(name string, pubkey, data []byte, sign func() []byte, schnorr bool) []byte {
+	next("sig", name)
+	return sign()
+}
+
 // AbstractArith asks the engine to try an abstraction of multiplications and
 // divisions (uninterpreted functions) before the exact bit-vector query.
 func AbstractArith() {}
